@@ -241,7 +241,7 @@ def run_case(args):
         for ob in rep.obligations:
             if ob.kind == "canary":
                 ncan += 1
-                if ncan > 6:
+                if ncan > 40:
                     ob.status, ob.reason = "skipped", "canary sample limit"
         stats = V.solve_all([ob for ob in rep.obligations], budget=budget, workers=workers)
         out["solve"] = stats
